@@ -569,9 +569,10 @@ open MW.Lemmas.Deepen3 MW.Lemmas.Deepen4 in
     moved on (put off by the followed-chain check), unconfirmed transactions, handler steps for ANY queued
     notification — stale ones included (they fail and change nothing, or roll back onto the followed chain) —
     CreateWallet, NewAddress of any wallet but the one being restored (for which the code refuses it); inside a REMOVAL
-    window: node events, iterations, crashes while no notification is pending, the drain (which provably terminates) —
-    no handler step (C08 has no follower theorem for a partly deleted wallet), no unconfirmed transaction, no
-    CreateWallet / NewAddress.  STATE HYPOTHESIS (`GuardT`, for removals only): at RemoveWallet no unmined credit belongs
+    window: node events, iterations, crashes while no notification is pending, the drain (which provably terminates),
+    CreateWallet (under another name), NewAddress of the other wallets, unconfirmed transactions that are in no chain
+    the node has had — no handler step and no crash with a non-empty catch-up (C08 has no follower theorem for a partly
+    deleted wallet).  STATE HYPOTHESIS (`GuardT`, for removals only): at RemoveWallet no unmined credit belongs
     to a transaction of the followed chain (C08's open follower invariant `pendOff`; its other one, one credit entry per
     key, is carried by `JT`: `credNodup_stepT`). -/
 theorem crash_equiv_tasks {cfg : Cfg} {G : Block} (E : StaticOK cfg.st G) (hG : G.txs = []) (hb : cfg.batch > 0)
@@ -766,7 +767,8 @@ theorem removal_drain_total {cfg : Cfg} {G : Block} (hl : cfg.limit > 0) (cr : B
     c2, one batch (cursor 1), the node reorganises to e2 (coinbase pays "a3" AND w1's "a2"), a batch is put off,
     CreateWallet w2, NewAddress w1, the node goes back to c2 and again to e2, CRASH (e2, c2, e2 queued in the run that
     never stops; wallet on c2, w3 importing from 1), batch, three handler steps (the second on a STALE notification),
-    importDrain, RemoveWallet w1, one iteration (step size 1), CRASH, removeDrain: all hypotheses hold … -/
+    importDrain, RemoveWallet w1, one iteration (step size 1), CreateWallet w4, NewAddress w3, an unconfirmed
+    transaction, CRASH, removeDrain: all hypotheses hold … -/
 example : Lemmas.Deepen3.StaticOK Lemmas.Deepen4.exCfg.st Lemmas.Ledger.hxG := Lemmas.Deepen4.ex4StaticOK
 example : Lemmas.Deepen4.JT Lemmas.Deepen4.exCfg Lemmas.Ledger.hxG Lemmas.Deepen3.exX0 Lemmas.Deepen4.exK0T :=
   Lemmas.Deepen4.exJT0
@@ -785,7 +787,7 @@ example : (Lemmas.Deepen4.skRunT Lemmas.Deepen4.exCfg Lemmas.Deepen4.exK0T Lemma
   ⟨by rfl, Lemmas.Deepen4.exEquivW.1⟩
 /-- … and the crash at event 13 is taken at a non-quiet point inside the import window (the two runs differ there:
     the crashing run has reorganised onto e2 inside Start, kept the rescan's cursor and has the rescan queued again);
-    at the end w2 and w3 are the only wallets, w3 ready with the coin the rescan picked up -/
+    at the end w2, w3 and w4 are the only wallets, w3 ready with the coin the rescan picked up -/
 example : (Lemmas.Deepen4.runT Lemmas.Deepen4.exCfg false Lemmas.Deepen3.exX0 (Lemmas.Deepen4.exEvsT.take 13)).V.led.best = ⟨2, "c2"⟩ ∧
     (Lemmas.Deepen4.runT Lemmas.Deepen4.exCfg true Lemmas.Deepen3.exX0 (Lemmas.Deepen4.exEvsT.take 13)).V.led.best = ⟨2, "e2"⟩ ∧
     (Lemmas.Deepen4.runT Lemmas.Deepen4.exCfg true Lemmas.Deepen3.exX0 (Lemmas.Deepen4.exEvsT.take 13)).V.tasks = [.imp "w3"] ∧
